@@ -76,6 +76,16 @@ CHECKS = {
          "relative tolerance 1e-6; hypervolume clause not encodable (botorch tensors)",
     technique="symbolic execution of the real numpy code on z3 reals + SMT (QF_NRA) per path",
     design_ref="DESIGN.md §3 C19"),
+ "C17": dict(
+    text="Program extraction through contract stubs of cvxpy and scipy.optimize.minimize: the real get_alpha / compute_u_star "
+         "code is executed symbolically and the program it builds is proved (z3) to be the defining one (feasible set, "
+         "objective) with the returned numbers read off it correctly (α_n = attained maximum, u* = z*/‖z*‖, d1 = ‖z*‖, "
+         "W u* > 0, optimality by instantiation); β(θ) = 1/sin θ | 1 for all θ at once; the numerical outputs of the real "
+         "solvers are compared with independent KKT / active-set oracles on the cone set.",
+    note=REAL + "numerical convergence of ECOS/Clarabel/SLSQP is not decided symbolically (concrete comparison on the cone "
+         "set only); symbolic-θ optimality of α returned unknown in nlsat and is replaced by the θ grid",
+    technique="symbolic execution with solver stubs (program extraction) + SMT (QF_NRA); concrete oracle comparison",
+    design_ref="DESIGN.md §3 C17"),
 }
 
 _WIP = "check not built yet (work in progress; will be claimed once its harness exists)"
